@@ -112,11 +112,27 @@ class Schedules(Suite):
                         out.append(G.place({"id": {"s": "abc"}, "method": "tools/call", "params": {"name": "x"}, "D": 2 * P, "tie": tie,
                                             "progress": True, "hasToken": True, "tokenKind": tk, "cbAction": [act, k_act], "ev": evs,
                                             "debug": k_act == 1}))
+        # the callback as every kind of async callable, and callbacks that TAKE TIME (oracle only: the
+        # model's callbacks are instantaneous; the deadline and progress exactness are the text's)
+        for tie in ("events", "io"):
+            for form in ("object", "lambda", "partial", "method"):
+                evs = [[5 + 40 * i, G.sym_event("G", k=i + 1)] for i in range(3)] + [[P + 30, {"k": "resp", "id": "$ID", "p": {"ok": 1}}]]
+                out.append(G.place({"id": {"s": "abc"}, "method": "tools/call", "params": {"name": "x"}, "D": 2 * P, "tie": tie,
+                                    "progress": True, "cbForm": form, "ev": evs}))
+            for sleep in (1, 40, P - 7, P, P + 3, 2 * P - 60, 3 * P):
+                for answered in (False, True):
+                    evs = [[5, G.sym_event("G", k=1)], [P + 9, G.sym_event("G", k=2)]]
+                    if answered:
+                        evs.append([2 * P + 100, {"k": "resp", "id": "$ID", "p": {"ok": 1}}])
+                    out.append(G.place({"id": {"s": "abc"}, "method": "tools/call", "params": {"name": "x"}, "D": 3 * P, "tie": tie,
+                                        "progress": True, "cbSleep": sleep, "ev": evs}))
         # progress streams
         rng = ctx.sub_rng("c14-progress", budget)
         n = 6000 if budget == "quick" else 150000
         for i in range(n):
             c = G.seeded(rng, ["G", "G", "G", "F", "N", "O", "R", "E", "Q", "B"], max_len=10, progress_p=0.9, cancel_p=0.25)
+            if c.get("progress") and i % 3 == 0:
+                c["cbForm"] = ("object", "lambda", "partial", "method")[(i // 3) % 4]
             out.append(c)
         n2 = 2500 if budget == "quick" else 60000
         for i in range(n2):
@@ -144,8 +160,8 @@ class Schedules(Suite):
         return obs
 
     def model_line(self, case, o=None):
-        if o is None or o.get("harness_errors") or case.get("cbAction"):
-            return None
+        if o is None or o.get("harness_errors") or case.get("cbAction") or case.get("cbSleep"):
+            return None  # callbacks with effects / that take time: oracle only
         return H.model_line(case, o)
 
     def model_obs(self, out, case):
@@ -244,6 +260,12 @@ class Schedules(Suite):
             # arrived before the token fired must still have been delivered, in order
             before = [x for a, x in seq if x is not None and a < c]
             if o["cbs"][: len(before)] == before:
+                ok = True
+        if not ok and case.get("cbSleep"):
+            # while a callback is still running nothing is consumed: what arrives meanwhile is delivered
+            # afterwards, or never if the deadline comes first -- in order, once each, nothing invented
+            allm = [x for _, x in seq if x is not None]
+            if o["cbs"] == allm[: len(o["cbs"])]:
                 ok = True
         if not ok:
             exp = [x for _, x in seq[:lo] if x is not None]
